@@ -36,6 +36,11 @@ MAX_BUCKETS = 4  # root-cause buckets shrunk per shard
 SHRINK_CALLS = {"quick": 400, "thorough": 3000}
 # wall-clock cap on shrinking one bucket (affects only how small the replay file is, never pass/fail)
 SHRINK_SECONDS = {"quick": 45.0, "thorough": 600.0}
+if os.environ.get("VERIF_AUDIT_FAST"):
+    # sensitivity audit only (tools/audit.py): the verdict DETECTED / MISSED needs neither a small
+    # replay file nor the buckets behind the first one
+    MAX_BUCKETS = 0
+    SHRINK_CALLS = {"quick": 0, "thorough": 0}
 
 
 # --------------------------------------------------------------------------------------------
